@@ -80,7 +80,7 @@ func genPlan(p *simrt.Tape, noAuctions bool) any {
 	ws.SecondsPerSlot, ws.SlotsPerEpoch = 2, 4 // 8 s epochs: the periodic jobs fire several times
 	ws.NSecondary, ws.NPrep = p.Range(0, 1), 1
 	ws.StartOffset = time.Duration(p.Range(0, 7)) * time.Second
-	o := relaysim.GenOpts{NVals: len(ws.Vals), Unresolvable: 35, V1: 15, MaxRelays: 3, MaxProposers: 3, AvoidKnown: true}
+	o := relaysim.GenOpts{NVals: len(ws.Vals), Unresolvable: 35, V1: 15, MaxRelays: 3, MaxProposers: 3, AvoidKnown: true, UnusableRelay: 20}
 	pl.Initial = genDoc(p, o, 30)
 	// bursts: a source change, usually a refresh, and client calls at (almost) the same instant
 	nb := p.Range(2, 5)
